@@ -8,7 +8,8 @@ From Coq Require Import NArith ZArith List.
 From Blue Require Import Gen.Const_Table Table.Model Table.ModelBloom Table.ModelSst Table.Ref
   Table.BlockBase Table.BuildProofs Table.CursorProofs Table.DivideProofs Table.BloomProofs
   Table.SstCursorProofs Table.BuildSstProofs Table.SstProofs Table.MultiProofs Table.AcceptProofs
-  Table.ModelWire Table.WireProofs Table.ModelBytes Table.BytesProofs Table.BlockBytesProofs Table.FileBytesProofs.
+  Table.ModelWire Table.WireProofs Table.ModelBytes Table.BytesProofs Table.BlockBytesProofs Table.FileBytesProofs
+  Table.ModelFile Table.FileLayoutProofs Gen.Shapes_sst Table.ShapesAgree.
 From Blue Require Wire.Model Wire.ModelMsg Wire.Spec Wire.ProofsScalar.
 Import ListNotations.
 
@@ -283,6 +284,54 @@ Proof.
   exact (block_len_is_length blk Hrec Hbd Hnr).
 Qed.
 
+(* ---- the SST layer over FILE BYTES (Table/ModelFile.v) ----
+   `sst_bytes crc digest t` is the file SstBuilder::seal leaves behind for the table t: the data
+   block frames, the index block frame (its BlockMetadata values carrying the checksums of the data
+   blocks), the filter frame, the FinalBlock ending in final_block_offset.  `file_run`, `file_load`
+   and `file_metadata` start from nothing but those bytes: Sst::from_file_handle (trailing eight
+   bytes, FinalBlock unpacked through prototk, the position checks, index block loaded and read
+   back, every data block in front of the index block, filter loaded), then SstCursor / Sst::load /
+   Sst::metadata with every load_block a read of [start, limit), an SstEntry unpack, a checksum
+   comparison and Block::new on the payload, and every cursor movement the byte-level BlockCursor.
+   crc32c is ANY function into u32 and the setsum digest ANY function into [u8; 32]: the builder
+   writes crc(payload), the reader compares; nothing else about them is used.
+   The tables are those built with the real record size and the prototk BlockMetadata codec. *)
+Definition crc_u32 (crc : bytes -> N) : Prop := forall bs, (crc bs < Wire.Model.W32)%N.
+Definition digest_32 (digest : list entry -> bytes) : Prop :=
+  forall es, length (digest es) = 32%nat /\ bytes_ok (digest es).
+
+Theorem C10_file_cursor_refines : forall crc digest sip, crc_u32 crc -> digest_32 digest ->
+  forall (o : sopts) (es : list entry) (t : sst) (prog : list op), entries_wire_ok es ->
+  build_sst enc_size_real meta_enc_real meta_dec_real sip o es = Ok t ->
+  file_run crc (sst_bytes crc digest t) prog = FOk (map (fun x => FOk x) (ref_run es (-1) prog)).
+Proof. intros crc digest sip Hc Hd o es t prog. exact (file_cursor_refines crc Hc digest Hd sip o es t prog). Qed.
+
+Theorem C10_file_load : forall crc digest sip, crc_u32 crc -> digest_32 digest ->
+  forall o es t key ts, entries_wire_ok es ->
+  build_sst enc_size_real meta_enc_real meta_dec_real sip o es = Ok t ->
+  file_load crc sip (sst_bytes crc digest t) key ts = FOk (load_spec es key ts).
+Proof. intros crc digest sip Hc Hd o es t key ts. exact (file_load_ok crc Hc digest Hd sip o es t key ts). Qed.
+
+(* Sst::metadata of the opened file: first / last key, timestamp range, the digest of exactly the
+   items put in, and file_size = the number of bytes of the file (= what the builder accounted) *)
+Theorem C10_file_metadata_exact : forall crc digest sip, crc_u32 crc -> digest_32 digest ->
+  forall o es t, entries_wire_ok es ->
+  build_sst enc_size_real meta_enc_real meta_dec_real sip o es = Ok t ->
+  file_metadata crc (sst_bytes crc digest t) =
+    FOk {| fm_first := spec_first es; fm_last := spec_last es MAX_KEY;
+           fm_smallest := spec_smallest es; fm_biggest := spec_biggest es;
+           fm_setsum := digest es; fm_file_size := len (sst_bytes crc digest t) |} /\
+  len (sst_bytes crc digest t) = t_file_size t.
+Proof. intros crc digest sip Hc Hd o es t. exact (file_metadata_exact crc Hc digest Hd sip o es t). Qed.
+
+(* the message shapes the byte layer is stated over are the ones tools/shapes.py regenerates from
+   the #[derive(Message)] attributes of /repo's sst crate on every run *)
+Theorem C10_shapes_are_source :
+  kv_put_shape = shape_KeyValuePut /\ kv_del_shape = shape_KeyValueDel /\
+  kv_entry_shape = shape_KeyValueEntry /\ block_metadata_shape = shape_BlockMetadata /\
+  final_block_shape = shape_FinalBlock /\ sst_entry_shape = shape_SstEntry.
+Proof. exact shapes_are_source. Qed.
+
 (* ---- non-vacuity: a concrete size function, options and a non-trivial accepted sequence ---- *)
 Definition enc_size_example (be : bentry) : N := (3 + len (be_frag be))%N.
 
@@ -323,3 +372,19 @@ Example block_bytes_example :
       Ok [Ok (Some ([97], 5, Some [1])); Ok (Some ([97], 3, None)); Ok (Some ([97], 5, Some [1]));
           Ok (Some ([98], 0, None)); Ok (Some ([97; 98], 9, Some []))]%N.
 Proof. eexists. split; [vm_compute; reflexivity|]. split; vm_compute; reflexivity. Qed.
+
+(* the file-level statements on a concrete table of four data blocks: 303 bytes *)
+Definition crc_example (bs : bytes) : N := (fold_left (fun a b => (a * 31 + b) mod 4294967296) bs 7)%N.
+Definition digest_example (es : list entry) : bytes := repeat (len (concat (map e_key es)) mod 256)%N 32.
+
+Example file_bytes_example :
+  exists t,
+    build_sst enc_size_real meta_enc_real meta_dec_real (fun k => len k)
+      {| so_block := {| o_bri := 100; o_kri := 2 |}; so_tbs := 20; so_tfs := 1000; so_mfs := 1000; so_bits := 10 |}
+      [([97], 5, Some [1]); ([97], 3, None); ([97; 98], 9, Some []); ([98], 0, None)]%N = Ok t /\
+    length (t_index t) = 4%nat /\
+    len (sst_bytes crc_example digest_example t) = t_file_size t /\
+    file_run crc_example (sst_bytes crc_example digest_example t) [ONext; ONext; OPrev; OSeek [98]%N; OPrev] =
+      FOk [FOk (Some ([97], 5, Some [1])); FOk (Some ([97], 3, None)); FOk (Some ([97], 5, Some [1]));
+           FOk (Some ([98], 0, None)); FOk (Some ([97; 98], 9, Some []))]%N.
+Proof. eexists. split; [vm_compute; reflexivity|]. split; [reflexivity|]. split; vm_compute; reflexivity. Qed.
